@@ -4,7 +4,7 @@
    (lib/c01.py), which runs all pairings on the code the current generator emits. *)
 Require Bebop.wire.PrimBridge.   (* the primitive layer is tied to iohelp (translator T1): part of this property's closure *)
 Require Import Bebop.wire.Wire Bebop.wire.WireFacts Bebop.wire.ByteDec Bebop.wire.ByteDecFacts
-               Bebop.wire.Encoders Bebop.wire.EncodersFacts Bebop.wire.StreamDec Bebop.props.WireExample.
+               Bebop.wire.Encoders Bebop.wire.EncodersFacts Bebop.wire.StreamDec Bebop.wire.StreamFacts Bebop.props.WireExample.
 
 (* the value every encoder emits for a normalised value [v] (deprecated fields empty, one union member): the reference
    encoding [a]; MarshalBebop = make(Size()) + MarshalBebopTo, so it is the mto clause with an all-zero buffer *)
@@ -29,19 +29,21 @@ Definition C01_statement : Prop :=
   forall s, schema_wf s -> forall t v a, enc s t v = Some a ->
     encoders_emit s t v a /\ byte_decoders_return s t v a /\ stream_decoder_returns s t v a.
 
-(* proved so far: the three encoders and the two byte-path decoders (6 of the 9 pairings); the DecodeBebop column is
-   decided by the correspondence check until the stream round trip (prototyped on the reduced model) is ported *)
-Definition C01_partial_statement : Prop :=
-  forall s, schema_wf s -> forall t v a, enc s t v = Some a ->
-    encoders_emit s t v a /\ byte_decoders_return s t v a.
-
-Theorem C01_partial : C01_partial_statement.
+Lemma stream_clause s : schema_wf s -> forall t v a, enc s t v = Some a -> stream_decoder_returns s t v a.
 Proof.
-  intros s Hwf t v a E. pose proof (enc_genc s v t a E) as G. split; [split; [|split]|].
+  intros Hwf t v a E. destruct (stream_roundtrip s Hwf v t a E) as [f0 H0]. exists f0. intros fuel Hf rest sch.
+  destruct (H0 fuel Hf {| bs := {| data := a ++ rest; sched := sch |}; limits := []; err := false |} rest eq_refl (Forall_nil _) eq_refl) as (r' & Hd & (D & _ & Er)).
+  exists r'. split; [exact Hd|]. cbn [bs data err] in *. split; [rewrite D; apply skipn_app_len|exact Er].
+Qed.
+
+Theorem C01 : C01_statement.
+Proof.
+  intros s Hwf t v a E. pose proof (enc_genc s v t a E) as G. split; [split; [|split]|split].
   - exact (L1 s v t a E).
   - intros buf Hb. exact (C02_buffer s v t a buf G Hb).
   - destruct (L3 s v t a G ew0 eq_refl) as [k Hk]. exists (0 + k). exact Hk.
   - intros sf. exact (roundtrip3 s {| safe := sf; lim := None |} Hwf eq_refl v t a E).
+  - exact (stream_clause s Hwf t v a E).
 Qed.
 
 (* non-vacuity: a concrete schema with every kind of definition and a value exercising them meets the hypotheses, and
@@ -52,4 +54,4 @@ Example C01_witness :
   dec3 ex_schema {| safe := false; lim := Some 64%N |} 20 (TRef 4) ex_bytes = Ok (ex_value, 78, 78).
 Proof. split; [exact ex_schema_wf|]. repeat split; vm_compute; reflexivity. Qed.
 
-Print Assumptions C01_partial.
+Print Assumptions C01.
